@@ -116,6 +116,20 @@ CLAIMED = {
         note=TB + "Float rounding is not modelled (IEEE rounding monotone); time.time() is patched by the harness.",
         technique="Coq proof over Q (lra, Qround monotonicity lemmas, invariants over label lists) + label-by-label correspondence against SessionBase",
         ref='6/C14'),
+    'C20': dict(
+        text=("Proof (partial): the recalibration function over exact rationals: for every current limit 1..250 and EVERY "
+              "response-time average and target response time the new limit lies between two functions of the current limit "
+              "alone (monotonicity of rounding), and a kernel-evaluated table over the finite domain 1..250 lifts to: new limit "
+              "in 1..250, rise <= ceil(max(3,10%)), fall <= ceil(max(1,20%)); hence every limit of every recalibration history "
+              "from 50 is in range. Awaiting requests <= largest limit in force and one retired permit per completion are the "
+              "limiter theorems of C13 instantiated for the outgoing limiter. A wait under timeout_after(T) ends by T with the "
+              "response, TaskTimeout or the cancellation, for every peer delay and cancel instant (timeout model of C11). "
+              "Correspondence: the real _recalc_concurrency for every current limit x response-time histories; oracle: "
+              "virtual-time workloads (up to 120 callers, singles and batches, peer answering late/never/partly/garbage, "
+              "connection loss) - every call ends by written + timeout, in-flight <= largest limit."),
+        note=TB + "Partial: that the future is resolved/cancelled by the connection is C01/C08; asyncio's timers are trusted; float rounding next to a .5 boundary accepted within 1e-9.",
+        technique="Coq proof (Q arithmetic + finite table by vm_compute lifted with forallb_forall; corollaries of the limiter and timeout theorems) + exhaustive-in-current-limit correspondence + virtual-time workload oracle",
+        ref='6/C20'),
 }
 
 REASONS = {}
